@@ -33,6 +33,8 @@ def reach():
 
 
 def note(*items):
+    if os.environ.get('SYMCHECK_DEBUG'):
+        sys.stderr.write('NOTE ' + ' '.join(repr(item)[:300] for item in items) + '\n')
     if len(NOTES) < 50:
         NOTES.append(' '.join(str(item) for item in items))
 
